@@ -108,6 +108,8 @@ Record folder := {
   f_model : string;                (* model.json (canonical digest) *)
   f_info : option string;          (* info.json (canonical digest) *)
   f_samples : option (list sample);(* samples.csv + samples_info.json *)
+  f_load_error : option string;    (* exception raised when the best-fit instance is built from the stored
+                                      samples and the stored model (oracle value; None = loads) *)
   f_jsons : list string;           (* names of files/**.json *)
   f_analyses : list (list string)  (* json names of each analyses/<x>/files, in glob order *)
 }.
@@ -196,11 +198,12 @@ Fixpoint add_fits (classes : list search_class) (fs : list folder) (db : list ro
   | [] => Loaded db
   | f :: rest =>
       if negb (folder_reload_ok classes f) then Raised "TypeError"
-      else
+      else match f_load_error f with Some e => Raised e | None =>
         let db1 := if has_id (f_reload_id f) db then refresh_id f db else db ++ [fit_row f] in
         let kids := child_rows f in
         if existsb (fun k => has_id (r_id k) db1) kids then Raised "IntegrityError"
         else add_fits classes rest (db1 ++ kids)
+      end
   end.
 
 Fixpoint is_prefix (p q : list string) : bool :=
@@ -285,7 +288,9 @@ Record fit_spec := {
   fs_class : string;
   fs_keys : list string;
   fs_reload_id : string;
-  fs_model : string;
+  fs_model : string;             (* the model that was fitted *)
+  fs_stored_model : string;      (* what model.json holds (oracle; equal to fs_model when persistence is faithful) *)
+  fs_load_error : option string;
   fs_info : option string;       (* None: no info / empty info *)
   fs_samples : list sample;
   fs_interrupt : interrupt;
@@ -313,9 +318,10 @@ Definition spec_jsons (s : fit_spec) : list string :=
 Definition write_fit (s : fit_spec) : folder :=
   {| f_path := spec_path s; f_metadata := true; f_completed := spec_completed s; f_marker := None;
      f_parent_file := None; f_written_id := fs_id s; f_class := fs_class s; f_keys := fs_keys s;
-     f_name := fs_name s; f_tag := fs_tag s; f_reload_id := fs_reload_id s; f_model := fs_model s;
+     f_name := fs_name s; f_tag := fs_tag s; f_reload_id := fs_reload_id s; f_model := fs_stored_model s;
      f_info := fs_info s;
      f_samples := if has_samples s then Some (fs_samples s) else None;
+     f_load_error := if has_samples s then fs_load_error s else None;
      f_jsons := spec_jsons s; f_analyses := fs_analyses s |}.
 
 (* DatabasePaths: Fit(id = identifier) created by save_all, filled by save_samples / save_summary,
